@@ -13,19 +13,14 @@ Lemma pattern_numeric_tied : CFGID_PATTERN_NUMERIC = model_pattern_numeric.
 Proof. reflexivity. Qed.
 Lemma pattern_nameonly_tied : CFGID_PATTERN_NAMEONLY = model_pattern_nameonly.
 Proof. reflexivity. Qed.
-Lemma fmt_full_tied : CFGID_FMT_FULL = model_fmt_full.
+(* the string constants of cfgid_str are exactly the two format strings the printer
+   implements; those of __str__ are "", the separator " " and the name-only format *)
+Lemma cfgidstr_strings_tied : CFGID_CFGIDSTR_STRINGS = model_cfgidstr_strings.
 Proof. reflexivity. Qed.
-Lemma fmt_devsettings_tied : CFGID_FMT_DEVSETTINGS = model_fmt_devsettings.
-Proof. reflexivity. Qed.
-Lemma fmt_nameonly_tied : CFGID_FMT_NAMEONLY = model_fmt_nameonly.
-Proof. reflexivity. Qed.
-Lemma name_sep_tied : CFGID_NAME_SEP = [32].
+Lemma str_strings_tied : CFGID_STR_STRINGS = model_str_strings.
 Proof. reflexivity. Qed.
 Lemma unknown_tied : CFGID_UNKNOWN = 9999.
 Proof. reflexivity. Qed.
-Lemma groups_tied :
-  CFGID_GROUPS_NUMERIC = model_groups_numeric /\ CFGID_GROUPS_NAMEONLY = model_groups_nameonly.
-Proof. split; reflexivity. Qed.
 
 (* ------------------------------------------------------------------------- *)
 (* decimal digits *)
@@ -534,7 +529,7 @@ Qed.
 
 (* what __str__ appends after the numeric id *)
 Definition name_tail (nm : option str) : str :=
-  if name_falsy nm then [] else CFGID_NAME_SEP ++ match nm with Some n => n | None => [] end.
+  if name_falsy nm then [] else NAME_SEP ++ match nm with Some n => n | None => [] end.
 
 Lemma cid_str_numeric c p d v nm : c <> 9999 ->
   cid_str (mk_cid (Some c) p d (Some v) nm) =
@@ -563,7 +558,7 @@ Definition name_ok (nm : option str) : Prop :=
 Lemma opt_name_tail nm : name_ok nm -> opt_name (name_tail nm) = nm.
 Proof.
   destruct nm as [[|c s]|]; cbn; intro H; [destruct H as [H _]; congruence| |reflexivity].
-  destruct H as [_ H]. unfold name_tail, opt_name, CFGID_NAME_SEP. cbn [name_falsy app].
+  destruct H as [_ H]. unfold name_tail, opt_name, NAME_SEP. cbn [name_falsy app].
   f_equal. exact (first_line_single (c :: s) H).
 Qed.
 
@@ -612,7 +607,7 @@ Proof.
   apply (f_equal (fun r => match r with Ok i => cid_name i | Err _ => None end)) in Hp'.
   unfold mk_cid in Hp'. cbn [cid_name] in Hp'. rename Hp' into Hn. clear - Hn.
   destruct nm as [[|x s]|]; [discriminate| |exact I].
-  unfold name_tail, opt_name, CFGID_NAME_SEP in Hn. cbn [name_falsy app] in Hn.
+  unfold name_tail, opt_name, NAME_SEP in Hn. cbn [name_falsy app] in Hn.
   change (32 =? 32) with true in Hn. cbv iota in Hn. injection Hn as Hn.
   split; [discriminate|]. apply first_line_fixed. exact Hn.
 Qed.
